@@ -420,7 +420,7 @@ def gen_path(rng, tags, addrs, k, elem, bad=0.06):
         return ('sym', 'NoSuch' + str(rng.randint(0, 3)), elem)
     if x < bad:
         c, i, a = addrs[k]
-        return rng.choice([('num', 0x77, 1, 1, elem), ('num', c, i, a + 20, elem), ('num', c, i + 7, a, elem)])
+        return rng.choice([('num', 0x77, 1, 1, elem), ('num', c, i, a + 20, elem), ('num', c, i + 7, a, elem), ('num', c, i, 0, elem)])      # (attribute 0 is never valid)
     if rng.random() < 0.5:
         return ('sym', rand_case_name(rng, t['name']), elem)
     c, i, a = addrs[k]
